@@ -425,6 +425,14 @@ class Machine:
         return None
 
     # ------------------------------------------------------------------ scalar ops
+    def rarg(s, x):
+        """argument of an opaque application: canonical modulo ring identities in REAL mode (axioms.canon)"""
+        x = to_real(x)
+        if s.mode == 'REAL' and getattr(s, 'canon_args', True):
+            from .axioms import canon
+            return canon(x)
+        return x
+
     def float_bin(s, op, a, b, ty):
         if s.mode == 'CONC' and not is_sym(a) and not is_sym(b):
             a = float(a)
@@ -481,7 +489,7 @@ class Machine:
             return arith({'Add': '+', 'Sub': '-', 'Mul': '*', 'Div': '/'}[op], a, b)
         if op == 'Rem':
             s.opaque_used.add('fmod')
-            return app('fmod', 'Real', a, b)
+            return app('fmod', 'Real', s.rarg(a), s.rarg(b))
         return cmp({'Eq': '=', 'Ne': '!=', 'Lt': '<', 'Le': '<=', 'Gt': '>', 'Ge': '>='}[op], a, b)
 
     def int_bin(s, op, a, b, ty):
@@ -788,7 +796,7 @@ class Machine:
             x, y = a[0][0], a[1][0]
             if conc:
                 return [math.fmod(x, y) if y != 0 and not math.isinf(x) else math.nan]
-            return [app('fmod', 'Real', to_real(x), to_real(y))]
+            return [app('fmod', 'Real', s.rarg(x), s.rarg(y))]
         if trait == 'ToPrimitive':
             x = s.deref_arg(p, a[0])
             if f == 'to_f64':
@@ -801,16 +809,16 @@ class Machine:
                     return [getattr(math, {'ln': 'log'}.get(f, f))(x)]
                 except ValueError:
                     return [math.nan]
-            return [app(f, 'Real', to_real(x))]
+            return [app(f, 'Real', s.rarg(x))]
         if f == 'sin_cos':
             if conc:
                 return [math.sin(x), math.cos(x)]
-            return [app('sin', 'Real', to_real(x)), app('cos', 'Real', to_real(x))]
+            return [app('sin', 'Real', s.rarg(x)), app('cos', 'Real', s.rarg(x))]
         if f == 'atan2':
             y = a[1][0]
             if conc:
                 return [math.atan2(x, y)]
-            return [app('atan2', 'Real', to_real(x), to_real(y))]
+            return [app('atan2', 'Real', s.rarg(x), s.rarg(y))]
         if f == 'abs':
             if conc:
                 return [abs(x)]
